@@ -26,9 +26,16 @@
   * `Rectangle::{intersection, translate, contains, points}`, `==` on rectangles, `-p`, `p + q` are the hand
     model's `EG.Rect` / `EG.Pt` functions. Their own tie to the Rust text is C16's (EG/Props/C16/Generated*.lean:
     regenerated bodies = these functions, `intersection` / `contains` under `FitsI32`; `Points` iterator).
-  * `iterator::contiguous::Cropped::new(colors, size, &crop_area)` (the colour iterator `Clipped::fill_contiguous`
-    builds) is everything the hand model of that iterator yields: `EG.croppedList` (EG/Model/CroppedIter.lean,
-    `Cropped::new` + `Iterator::next` transcribed by hand; NOT regenerated).
+  * `Iterator::next` / `Iterator::nth(n)` on an iterator that is a list: `iter_next` takes the head, `iter_nth n`
+    drops `n` items and takes the next (the default `nth`: `advance_by(n).ok()?; next()`; a list that is too short
+    is left empty and gives `None`). Both return the item and the rest (the translator rebinds the receiver).
+  * An iterator DEFINED IN THE CRATE with a stateful `next` (`iterator::contiguous::Cropped`, the colour iterator
+    `Clipped::fill_contiguous` builds; its `new` and `next` are regenerated) used where an `IntoIterator` is expected
+    is the list of items its generated `next` yields until the first `None`, on explicit fuel (`iter_collect_fuel`;
+    the theorems say the number of input colours + 1 suffices and more changes nothing).
+  * `usize` is `Nat` with mathematical `+ * `, truncated `-`; `u32 as usize` is the identity (`usize` is at least 32
+    bits on every supported target); `i32 as usize` sign-extends (stated for a 64-bit `usize`; the equivalence theorem
+    shows the value cast is never negative, where the width does not matter).
   * `PhantomData` is `Unit`.
 
   All definitions are `abbrev`s (see RectSrcPrelude). Import-free apart from EG.Model.
@@ -62,9 +69,37 @@ abbrev iter_zip {α β : Type} (a : List α) (b : List β) : List (α × β) := 
 abbrev core_iter_repeat {α : Type} (fuel : Nat) (c : α) : List α := List.replicate fuel c
 /-- an iterator whose `next` is `self.iter.next().map(f)`. -/
 abbrev iter_of_next_map {α β : Type} (inner : List α) (f : α → β) : List β := inner.map f
-/-- `iterator::contiguous::Cropped::new(colors, size, &crop_area)`, collected. -/
-abbrev contiguous_Cropped_new (colors : List Color) (size : Size) (crop_area : Rectangle) : List Color :=
-  croppedList colors size crop_area
+/-- `Iterator::next` of an iterator that is a list: the item and the rest. -/
+abbrev iter_next {α : Type} (l : List α) : Option α × List α :=
+  match l with
+  | [] => (none, [])
+  | a :: t => (some a, t)
+/-- `Iterator::nth(n)`: skip `n` items, then `next`. -/
+abbrev iter_nth {α : Type} (l : List α) (n : Nat) : Option α × List α := iter_next (l.drop n)
+/-- The items a `for` loop sees from an iterator given by its `next` (value, updated state), on explicit fuel. -/
+def iter_collect_fuel {σ α : Type} (next : σ → Option α × σ) : Nat → σ → List α
+  | 0, _ => []
+  | fuel + 1, s =>
+    match next s with
+    | (some a, s') => a :: iter_collect_fuel next fuel s'
+    | (none, _) => []
+
+/-! ### `usize` -/
+
+abbrev usize_add (a b : Nat) : Nat := a + b
+abbrev usize_mul (a b : Nat) : Nat := a * b
+/-- `usize - usize` (panics below 0 in a checked build; truncated here). -/
+abbrev usize_sub (a b : Nat) : Nat := a - b
+abbrev usize_div (a b : Nat) : Nat := a / b
+abbrev usize_eq (a b : Nat) : Bool := decide (a = b)
+abbrev usize_ne (a b : Nat) : Bool := decide (a ≠ b)
+abbrev usize_lt (a b : Nat) : Bool := decide (a < b)
+abbrev usize_le (a b : Nat) : Bool := decide (a ≤ b)
+abbrev usize_gt (a b : Nat) : Bool := decide (a > b)
+abbrev usize_ge (a b : Nat) : Bool := decide (a ≥ b)
+abbrev u32_as_usize (a : Nat) : Nat := a
+/-- `x as usize` for `x : i32`: sign extension (64-bit `usize`). -/
+abbrev i32_as_usize (a : Int) : Nat := if 0 ≤ a then a.toNat else (a + 18446744073709551616).toNat
 
 /-! ### `Rectangle` / `Point` operations used by the adapters (the hand model's) -/
 
